@@ -892,6 +892,8 @@ func (envs *Manager) TeardownEnvironment(environmentId uid.ID, force bool) error
 		return err
 	}
 
+	// the run, if any, is over: disarm the auto stop timer armed by START_ACTIVITY
+	env.invalidateAutoStopTransition()
 	env.setState("DONE")
 	env.sendEnvironmentEvent(&event.EnvironmentEvent{EnvironmentID: env.Id().String(), Message: "teardown complete", State: "DONE"})
 
